@@ -621,7 +621,7 @@ class Fam:
                 cfg.append("        code_generation_options = [" + ", ".join(cgo) + "]")
             if self.kf_wanted == "table-override-recursion" and self.kf is None and cfg_strategy_keys and not self.future_annotations:
                 # a Config / dialect level strategy whose return annotation leads back to the overridden type: the replacement type
-                # is looked up again (known finding table-override-recursion).  The function returns a hashable value built from
+                # is looked up again (was known finding table-override-recursion; fixed by /repo PENDING: positive cases).  The function returns a hashable value built from
                 # its argument, so to_dict and the rendering of defaults are not affected.
                 k = r.choice(cfg_strategy_keys)
                 ret, body_ = r.choice([(f"Optional[{k}]", "v"), (f"Tuple[{k}, ...]", "(v,)"), (f"Optional[{k}]", "v")])
